@@ -87,6 +87,7 @@ func TestVerifC09ClientStall(t *testing.T) {
 					return nil
 				}
 			}
+			started := time.Now() // (the reader's first wait cannot begin before this)
 			runner, err := runClient(context.Background(), runInProcess([]string{"verif-stalling-client"}, client))
 			if err != nil {
 				return
@@ -129,15 +130,21 @@ func TestVerifC09ClientStall(t *testing.T) {
 						viol = verifkit.Violf("stall-error-text", "stall at %s after %d answers: error %q does not say %q", r.StallAt, r.Answered, c.err, want)
 					case r.StallAt == "nothing" && strings.Contains(c.err.Error(), "bytes of"):
 						viol = verifkit.Violf("stall-error-text", "nothing arrived but the error names progress: %q", c.err)
-					case waited < 15*time.Second && r.Answered == 0 && r.GapMs == 0:
-						// (the wait began when the client was started, a moment before the request went out)
-						viol = verifkit.Violf("stall-early", "timeout error after only %v", waited)
+					case c.at.Sub(started) < 15*time.Second && r.Answered == 0 && r.GapMs == 0:
+						// (the wait began when the client was started; measured from before that, so that a slow
+						// machine cannot make a timely error look early)
+						viol = verifkit.Violf("stall-early", "timeout error only %v after the client was started (%v after the request)", c.at.Sub(started), waited)
 					}
 				case <-time.After(45 * time.Second):
 					if i < r.Answered {
 						return // the machine is too slow to judge
 					}
-					viol = verifkit.Violf("stall-no-timeout", "the client stalled (%s, after %d answers, request sent %dms after the last answer) and the waiting request had no error callback 45s after it was handed over; the period is %v", r.StallAt, r.Answered, r.GapMs, clientResponseTimeout)
+					select {
+					case <-got:
+						return // it did come, late: a machine too busy to judge by - no verdict
+					case <-time.After(3 * time.Minute):
+					}
+					viol = verifkit.Violf("stall-no-timeout", "the client stalled (%s, after %d answers, request sent %dms after the last answer) and the waiting request had no error callback 45s - nor 3 minutes 45s - after it was handed over; the period is %v", r.StallAt, r.Answered, r.GapMs, clientResponseTimeout)
 				}
 			}
 			mu.Lock()
